@@ -184,4 +184,155 @@ theorem validateOutcome_matches_source (o : Outcome) :
   | error e => rfl
   | ok u => cases u; rfl
 
+/-! ### decision trees: the ORDER of the checks, the nesting, the `switch` arms and the exits
+
+`Gen.Src.c15…Tree` are regenerated from the control structure of the Go functions (extract/exprs.d/C15.json,
+`"kind": "tree"`): which terminating statement is reached under which conditions.  The maps below name what the
+source returns at each exit (the Go functions return `fmt.Errorf(…)` values, which have no translation; the
+texts are listed in the doc comments of the generated definitions); the theorems say that the model's function
+is the regenerated tree followed by that map, for all arguments. -/
+
+/-- exits of `validateCheckResult`, in source order -/
+def checkResultExit : Nat → V
+  | 1 => .error .failedState          -- "check result cannot have failed execution state"
+  | 2 => .error .ineligible           -- "check result cannot be ineligible"
+  | 3 => .error .typeMismatchResult   -- "invalid trigger: %w"
+  | 4 => .error .wrongWorkIDResult    -- "incorrect workID within result"
+  | 5 => .error .zeroGas              -- "gas allocated cannot be zero"
+  | 6 => .error .fastGasMissing       -- "fast gas wei must be present"
+  | 7 => .error .fastGasRange         -- "fast gas wei must be in uint256 range"
+  | 8 => .error .linkNativeMissing    -- "link native must be present"
+  | 9 => .error .linkNativeRange      -- "link native must be in uint256 range"
+  | _ => .ok ()                       -- 10: `return nil`
+
+/-- `validateCheckResult`: nine checks in the order of the source, each with its own exit -/
+theorem validateCheckResult_tree_matches_source (r : CheckResult) :
+    validateCheckResult utg wg r =
+      checkResultExit (Gen.Src.c15CheckResultTree r.pes r.retryable r.eligible r.reason
+        (!triggerExtTypeOk r.trigger (utg r.upkeepID)) (wg r.upkeepID r.trigger) r.workID r.gas
+        r.fastGasWei.isNone (bigCmp (r.fastGasWei.getD 0) 0) (bigCmp (r.fastGasWei.getD 0) uint256Max)
+        r.linkNative.isNone (bigCmp (r.linkNative.getD 0) 0) (bigCmp (r.linkNative.getD 0) uint256Max)) := by
+  rw [validateCheckResult_matches_source]
+  simp only [Gen.Src.c15CheckResultTree, Gen.Src.c15Failed, Gen.Src.c15Ineligible, Gen.Src.c15ResultWorkIDWrong,
+    Gen.Src.c15ZeroGas, Gen.Src.c15FastGasOutOfRange, Gen.Src.c15LinkNativeOutOfRange, apply_ite checkResultExit]
+  have e1 : checkResultExit 1 = .error .failedState := rfl
+  have e2 : checkResultExit 2 = .error .ineligible := rfl
+  have e3 : checkResultExit 3 = .error .typeMismatchResult := rfl
+  have e4 : checkResultExit 4 = .error .wrongWorkIDResult := rfl
+  have e5 : checkResultExit 5 = .error .zeroGas := rfl
+  have e6 : checkResultExit 6 = .error .fastGasMissing := rfl
+  have e7 : checkResultExit 7 = .error .fastGasRange := rfl
+  have e8 : checkResultExit 8 = .error .linkNativeMissing := rfl
+  have e9 : checkResultExit 9 = .error .linkNativeRange := rfl
+  have e10 : checkResultExit 10 = .ok () := rfl
+  simp only [e1, e2, e3, e4, e5, e6, e7, e8, e9, e10]
+  cases r.fastGasWei <;> cases r.linkNative <;> simp
+
+/-- exits of `validateUpkeepProposal` -/
+def proposalExit : Nat → V
+  | 1 => .error .typeMismatchProposal   -- `return err` of validateTriggerExtensionType
+  | 2 => .error .wrongWorkIDProposal    -- "incorrect workID within proposal"
+  | _ => .ok ()                         -- 3: `return nil`
+
+theorem validateProposal_tree_matches_source (p : Proposal) :
+    validateProposal utg wg p =
+      proposalExit (Gen.Src.c15ProposalTree (!triggerExtTypeOk p.trigger (utg p.upkeepID))
+        (wg p.upkeepID p.trigger) p.workID) := by
+  rw [validateProposal_matches_source]
+  simp only [Gen.Src.c15ProposalTree, Gen.Src.c15ProposalWorkIDWrong, apply_ite proposalExit]
+  have e1 : proposalExit 1 = .error .typeMismatchProposal := rfl
+  have e2 : proposalExit 2 = .error .wrongWorkIDProposal := rfl
+  have e3 : proposalExit 3 = .ok () := rfl
+  simp only [e1, e2, e3]
+  cases triggerExtTypeOk p.trigger (utg p.upkeepID) <;> simp
+
+/-- `validateTriggerExtensionType`: the `switch` over the upkeep type — the condition arm refuses a present
+extension (exit 1), the log arm an absent one (exit 2), every other type and both good cases reach `return nil` (3) -/
+theorem triggerExtTypeOk_tree_matches_source (t : Trigger) (ut : UpkeepType) :
+    triggerExtTypeOk t ut = (Gen.Src.c15TriggerExtTree (typeCode ut) t.ext.isSome t.ext.isNone == 3) := by
+  obtain ⟨_, _, ext⟩ := t
+  cases ut <;> cases ext <;> rfl
+
+/-- body of the block-history loop: exit 1 = the duplicate error, 0 = next block -/
+theorem checkBlocks_tree_matches_source (b : BlockKey) (bs : List BlockKey) (seen : List Nat) :
+    checkBlocks (b :: bs) seen =
+      match Gen.Src.c15HistoryLoopTree (decide (b.number ∈ seen)) with
+      | 1 => .error .dupBlockNumber
+      | _ => checkBlocks bs (b.number :: seen) := by
+  simp only [checkBlocks, Gen.Src.c15HistoryLoopTree]
+  by_cases h : b.number ∈ seen <;> simp [h]
+
+/-- body of the performables loop of an observation: first the per-result validation (exit 1 returns ITS error),
+then the duplicate test (exit 2), else the next result -/
+theorem checkResults_tree_matches_source_obs (r : CheckResult) (rs : List CheckResult) (seen : List String) :
+    checkResults utg wg .dupPerformableWorkID (r :: rs) seen =
+      match Gen.Src.c15PerformableLoopTree (!(validateCheckResult utg wg r).isOk) (decide (r.workID ∈ seen)) with
+      | 1 => validateCheckResult utg wg r
+      | 2 => .error .dupPerformableWorkID
+      | _ => checkResults utg wg .dupPerformableWorkID rs (r.workID :: seen) := by
+  simp only [checkResults, Gen.Src.c15PerformableLoopTree]
+  cases validateCheckResult utg wg r with
+  | error e => simp [V.isOk]
+  | ok u => cases u; by_cases h : r.workID ∈ seen <;> simp [V.isOk, h]
+
+/-- … and of the agreed performables of an outcome -/
+theorem checkResults_tree_matches_source_outcome (r : CheckResult) (rs : List CheckResult) (seen : List String) :
+    checkResults utg wg .dupAgreedWorkID (r :: rs) seen =
+      match Gen.Src.c15AgreedLoopTree (!(validateCheckResult utg wg r).isOk) (decide (r.workID ∈ seen)) with
+      | 1 => validateCheckResult utg wg r
+      | 2 => .error .dupAgreedWorkID
+      | _ => checkResults utg wg .dupAgreedWorkID rs (r.workID :: seen) := by
+  simp only [checkResults, Gen.Src.c15AgreedLoopTree]
+  cases validateCheckResult utg wg r with
+  | error e => simp [V.isOk]
+  | ok u => cases u; by_cases h : r.workID ∈ seen <;> simp [V.isOk, h]
+
+/-- the error a failed validation hands on (`return err`) -/
+def errOf {α} (v : V) (dflt : α) : Except Rule α :=
+  match v with
+  | .error e => .error e
+  | .ok _ => .ok dflt
+
+/-- body of the proposal loop of an observation (the per-type counters are effects, both arms go on) … -/
+theorem checkProposals_tree_matches_source_obs (p : Proposal) (ps : List Proposal) (seen : List String) :
+    checkProposals utg wg (p :: ps) seen =
+      match Gen.Src.c15ProposalLoopTree (!(validateProposal utg wg p).isOk) (decide (p.workID ∈ seen))
+          (typeCode (utg p.upkeepID)) with
+      | 1 => errOf (validateProposal utg wg p) seen
+      | 2 => .error .dupProposalWorkID
+      | _ => checkProposals utg wg ps (p.workID :: seen) := by
+  simp only [checkProposals, Gen.Src.c15ProposalLoopTree]
+  cases validateProposal utg wg p with
+  | error e => simp [V.isOk, errOf]
+  | ok u => cases u; by_cases h : p.workID ∈ seen <;> simp [V.isOk, h]
+
+/-- … and of the inner loop over one round of an outcome -/
+theorem checkProposals_tree_matches_source_outcome (p : Proposal) (ps : List Proposal) (seen : List String) :
+    checkProposals utg wg (p :: ps) seen =
+      match Gen.Src.c15SurfacedLoopTree (!(validateProposal utg wg p).isOk) (decide (p.workID ∈ seen)) with
+      | 1 => errOf (validateProposal utg wg p) seen
+      | 2 => .error .dupProposalWorkID
+      | _ => checkProposals utg wg ps (p.workID :: seen) := by
+  simp only [checkProposals, Gen.Src.c15SurfacedLoopTree]
+  cases validateProposal utg wg p with
+  | error e => simp [V.isOk, errOf]
+  | ok u => cases u; by_cases h : p.workID ∈ seen <;> simp [V.isOk, h]
+
+/-- body of the loop over the rounds: the size test comes first (exit 1), then the inner loop -/
+theorem checkRounds_tree_matches_source (round : List Proposal) (rest : List (List Proposal)) (seen : List String) :
+    checkRounds utg wg (round :: rest) seen =
+      match Gen.Src.c15RoundLoopTree round.length Gen.outcomeSurfacedProposalsLimit with
+      | 1 => .error .roundProposalsOverLimit
+      | _ =>
+        match checkProposals utg wg round seen with
+        | .error e => .error e
+        | .ok seen' => checkRounds utg wg rest seen' := by
+  simp only [checkRounds, Gen.Src.c15RoundLoopTree]
+  by_cases h : round.length > Gen.outcomeSurfacedProposalsLimit
+  · simp [h]
+  · simp only [h, if_false, decide_false]
+    cases checkProposals utg wg round seen with
+    | error e => rfl
+    | ok s => rfl
+
 end AutoVerif.C15
